@@ -170,6 +170,14 @@ def model_line(c):
     return None
 
 
+def _server_query(uri):
+    """the query as the library's server half reads it (OAuth2Request): every pair, in order"""
+    try:
+        return [[k, v] for k, v in OAuth2Request("GET", uri)._parse_query()]
+    except Exception as e:
+        return [["<error>", type(e).__name__]]
+
+
 def pairs(bs):
     # octet-level parse: latin-1 in, latin-1 out
     return [[k.encode("latin1").hex(), v.encode("latin1").hex()]
@@ -196,7 +204,7 @@ def impl(c):
         r = prepare_grant_uri(uri, c["client_id"], c["response_type"], c["redirect_uri"], c["scope"], c["state"], **kw)
         u = urlparse(r)
         return {"out": u.query.encode().hex(), "parsed": pairs(u.query.encode()), "_rest": [u.scheme, u.netloc, u.path, u.fragment],
-                "_server": [[k, v] for k, v in url_decode(u.query)]}
+                "_server": _server_query(r)}
     if op == "secret_post":
         _, h, body = ClientAuth(c["client_id"], c["client_secret"], "client_secret_post").prepare("POST", "https://as.example/token", {}, c["body"])
         return {"out": body.encode().hex(), "parsed": pairs(body.encode())}
@@ -557,7 +565,7 @@ def oracle(c, out):
         if out["parsed"] != exp:
             bad("authorization URL query does not parse back to existing ++ emitted parameters", kind="roundtrip")
         if [[k.encode().hex(), val.encode().hex()] for k, val in out["_server"]] != exp:
-            bad("library's server-side url_decode reads different parameters", kind="server-parse")
+            bad("the library's server half (OAuth2Request) reads different parameters from the authorization URL than the client put there", kind="server-parse")
         if out["_rest"] != ["https", "as.example", "/authorize", c["fragment"]]:
             bad("another URL component was altered", kind="component")
     elif op == "secret_post":
